@@ -108,6 +108,10 @@ def nominees(idx: Index, config: Set[str], ev: Event, atoms: Callable[[dict], An
         nom = None
         for sid in tree.anc_or_self(leaf):
             cands, blocked = candidates_at(idx, sid, ev)
+            if ev.kind == "done.state":
+                # a queued done.state.X only drives X's onDone while X is (still) done: a stale
+                # notification - X re-entered or un-completed meanwhile - selects nothing (C10)
+                cands = [t for t in cands if t.family != "onDone" or tree.done(sid, set(config))]
             for t in cands:
                 v = eval_guard(t.guard, atoms)
                 if v == "missing":
